@@ -340,6 +340,10 @@ def do_resume(w, i, e, offer):
         policy_changed = True
     foreign = tam == "foreign"
     mech = mechanism(e, sess)
+    if mech == "id" and tam in ("flip", "trunc", "garbage"):
+        # the altered ticket is not what gets offered (the client dropped
+        # it as expired by its own clock): the untouched session id is
+        tam = None
     w.resumes += 1
     # client-side expiry pruning happens inside the client; mirror the time
     now_s = DET.now + DET.offsets.get("s", 0.0)
